@@ -46,6 +46,13 @@ def build_tree(rng, root, idx):
             # any directory, also an ancestor, the parent itself or the root: a directory that contains itself through links
             tgt = rng.choice(dirs[1:] + [parent, ""] + [d for d in dirs if d and (parent + "/").startswith(d + "/")])
             os.symlink(os.path.relpath(os.path.join(root, tgt), os.path.dirname(full)), full)
+            if rng.random() < 0.6:
+                # files of one name next to the link and next to what it points to: "<link>/../twin.slice" is the latter, whatever the text suggests
+                for dd in {parent, os.path.dirname(tgt)}:
+                    tw = os.path.join(dd, "twin.slice")
+                    if not os.path.exists(os.path.join(root, tw)):
+                        open(os.path.join(root, tw), "w").write("module Twin%d_%d\nstruct T%d {}\n" % (idx, len(files), len(files)))
+                        files.append(tw)
         else:
             os.symlink("nowhere%d.slice" % n, full)
         links.append(name)
@@ -139,6 +146,24 @@ def run(ck):
                 spool = rpool = files + links + dirs[1:] + ["nope.slice", "missing/dir"]
             srcs = [spell(rng, root, rng.choice(spool)) for _ in range(rng.choice([1, 1, 2, 3, 4]))]
             refs = [spell(rng, root, rng.choice(rpool)) for _ in range(rng.choice([0, 0, 1, 2, 3]))]
+            # '..' after a link to a directory: the file system goes to the parent of what the link points to, not to the directory the link is in
+            through = []
+            for l in links:
+                if os.path.isdir(os.path.join(root, l)):
+                    up = os.path.dirname(os.path.realpath(os.path.join(root, l)))
+                    try:
+                        through += [l + "/../" + nm for nm in sorted(os.listdir(up)) if nm.endswith(".slice") and os.path.isfile(os.path.join(up, nm))]
+                    except OSError:
+                        pass
+            if through and rng.random() < 0.7:
+                t = rng.choice(through)
+                (srcs if rng.random() < 0.6 else refs).append(t)
+                # next to it, the file its text seems to name, or the file it really is, spelled plainly
+                near = os.path.normpath(t)
+                real = os.path.relpath(os.path.realpath(os.path.join(root, t)), os.path.realpath(root))
+                for cand in (near, real):
+                    if rng.random() < 0.6 and os.path.isfile(os.path.join(root, cand)):
+                        (srcs if rng.random() < 0.5 else refs).append(cand)
             if rng.random() < 0.3 and srcs:
                 srcs.append(rng.choice(srcs))            # the very same spelling twice
             if rng.random() < 0.3 and srcs:
@@ -157,7 +182,7 @@ def run(ck):
     finally:
         shutil.rmtree(base, ignore_errors=True)
     ck.stream("filesets", description="random directory trees (depth <= 4; .slice and other files, names like '.slice', 'x.y.slice', 'f.slice.bak', 'h.SLICE', directories named '*.slice', "
-              "non-UTF-8 files, symbolic links to files, to directories and to nothing) x argument lists that alias the same file through './', '..', '//', absolute paths and links, in both lists, with repeats, "
+              "non-UTF-8 files, symbolic links to files, to directories and to nothing) x argument lists that alias the same file through './', '..', '//', '..' after a link to a directory (next to the file the text seems to name), absolute paths and links, in both lists, with repeats, "
               "with a source also given as a reference, with directories as references. compile_from_options in that tree vs the model fed with the file system's answers (kind, canonical identity, directory "
               "listing in the OS's order, readability): the compiled files with their roles in order, every error and DuplicateFile warning, and that nothing is parsed after an error.")
     for (root, srcs, refs), line, oo, mo in zip(metas, lines, o, m):
